@@ -35,9 +35,14 @@ def padRoi (shape : List Int) (axis : Nat) (roi : Roi) : Res (List PIdx) :=
   else if r.length > shape.length then .error .indexError
   else .ok r
 
-/-- `to_squeze`: axes other than `Y, X` that were indexed with a single int -/
-def squeezeAxes (axis : Nat) (r : List PIdx) : List Nat :=
-  r.zipIdx.filterMap fun (p, k) => if isInt p && k != axis && k != axis + 1 then some k else none
+/-- `to_squeze`, scanning from axis number `k`: axes other than `Y, X` indexed with a single int -/
+def squeezeFrom (axis : Nat) : Nat → List PIdx → List Nat
+  | _, [] => []
+  | k, p :: ps =>
+    (if isInt p && k != axis && k != axis + 1 then [k] else []) ++ squeezeFrom axis (k + 1) ps
+
+/-- `to_squeze` of `_norm_roi` -/
+def squeezeAxes (axis : Nat) (r : List PIdx) : List Nat := squeezeFrom axis 0 r
 
 /-- `_norm_roi(roi)` → `(roi_normalise(roi, shape), to_squeze)` -/
 def normRoi (shape : List Int) (axis : Nat) (roi : Roi) : Res (List NSlice × List Nat) := do
@@ -48,9 +53,12 @@ def normRoi (shape : List Int) (axis : Nat) (roi : Roi) : Res (List NSlice × Li
 def Assembler.shape {Val} (a : Assembler Val) : List Int :=
   a.lead ++ [total a.chy, total a.chx] ++ a.trail
 
-/-- `np.squeeze(xx, axis=to_squeze)`: drop the listed axes -/
-def dropAxes (sq : List Nat) (shape : List Int) : List Int :=
-  shape.zipIdx.filterMap fun (n, k) => if sq.contains k then none else some n
+/-- `np.squeeze(xx, axis=to_squeze)`: drop the listed axes (scanning from axis number `k`) -/
+def dropFrom (sq : List Nat) : Nat → List Int → List Int
+  | _, [] => []
+  | k, n :: ns => (if sq.contains k then [] else [n]) ++ dropFrom sq (k + 1) ns
+
+def dropAxes (sq : List Nat) (shape : List Int) : List Int := dropFrom sq 0 shape
 
 /-- `extract(fill, roi=…)` for any spelling of the window: the shape of the returned array (after
 squeezing), the shape before squeezing and the cells (indexed before squeezing; a squeezed axis
